@@ -10,6 +10,8 @@ package rules
 //            admin server's cluster lock held; the lock is released on every exit (c18_api.go)
 //   R-C18-4  version discipline of the create/update/delete handlers, +1 arithmetic of the version
 //            counter, X-Config-Version header (c18_api.go)
+//   R-C18-5  the object / version key of one name is only ever handed to exact-key cluster operations
+//            (added after the round-3 seeded change DeletePrefix(ConfigObjectKey(name)); c18_api.go)
 //
 // Genuine defect found on today's tree (left violated, see /tmp/vw/C18/out/fix-1.diff + zz_triage_test.go):
 //   R-C18-2|pkg/cluster.(cluster).Mutex|one local lock per name — &mutex{} allocated per call.
@@ -48,6 +50,11 @@ package rules
 //   M16  upgradeConfigVersion: header from a _getVersion() read before the bump → R-C18-4 upgradeConfigVersion|X-Config-Version carries…
 //   NOT caught, by design: M24 deleteObject without the 404 check (a successful delete of an absent name does not
 //   contradict the property; only the exit table is required of delete).
+//   M28  _deleteObject: Delete → DeletePrefix(ConfigObjectKey(name)) (round-3 seeded b)  → R-C18-5 _deleteObject|exact-key write on ConfigObjectKey
+//   M29  deleteObject: helper call replaced by `key := …ConfigObjectKey(name); s.cluster.DeletePrefix(key)` → R-C18-5 deleteObject|exact-key write…
+//   M30  _getObject: existence read through GetPrefix(ConfigObjectKey(name))   → R-C18-5 _getObject|exact-key read on ConfigObjectKey
+//   M31  _getVersion: GetWithOp(ConfigVersion(), cluster.OpPrefix)             → R-C18-5 _getVersion|exact-key read on ConfigVersion
+//   (silent: P11 _deleteObject through PutAndDelete(map[string]*string{key: nil}); _listObjects' GetPrefix(ConfigObjectPrefix()))
 // Behaviour-preserving edits that stay silent (exit unchanged): P1 renamed locals + `nil != err || p` + `return err`;
 // P2 Lock without named result (`done` flag, explicit `return e`); P3 Unlock with the etcd error in a local and explicit
 // order; P4 `return m.m.Lock(ctx)` with recover-and-repanic closure; P5 double-checked RWMutex table; P6 sync.Map
@@ -83,6 +90,7 @@ func c18(c *core.Ctx) string {
 	c.Rule("R-C18-2", "one process-local lock per (member, name): every non-nil value returned by the Cluster implementation's Mutex(name) originates from a table keyed by the name (map lookup / sync.Map load) or is inserted into that table before it is returned, lookup and insert happen in one critical section (or LoadOrStore); a value allocated afresh per call gives two callers of one member two sync.Mutex values under a single etcd session")
 	c.Rule("R-C18-3", "mutations under the lock: every write of the config-object key space, the config version key and every member purge issued by pkg/api is reached only with the admin server's cluster lock held (in the function itself or in all its callers); Server.Lock returns only after the cluster mutex reported success; every function taking the lock releases it on every exit including panics")
 	c.Rule("R-C18-4", "version discipline: a mutation handler ends either after an API error with zero object writes and zero version upgrades, or after exactly one object write followed by exactly one version upgrade in the same critical section; the existence read is made under the lock; create writes only when the name is absent and answers 409 otherwise, update writes only when the stored object has the request's kind and answers 400 on another kind; the version helper writes and returns (value read)+1; the upgrade sets X-Config-Version from it")
+	c.Rule("R-C18-5", "single-key addressing (sibling agreement of the object handlers): every cluster operation of pkg/api whose key is built by a per-object / per-counter Layout method (ConfigObjectKey, ConfigVersion) is an exact-key operation (Get, GetRaw, Put*, Delete, PutAndDelete*), never a range operation (*Prefix, GetWithOp+OpPrefix); range operations belong to the Layout's *Prefix keys")
 	c.NotDecided = []string{
 		"etcd's own guarantees (linearizable txn, lease expiry, what concurrency.Mutex leaves behind after a timed-out Lock)",
 		"cross-member timing and schedules (lock discipline is checked, interleavings are not explored)",
